@@ -200,7 +200,8 @@ def monNoPanic : ObsMonitor Obs (List Nat) where
     | _ => some m
 
 structure ProgSt where
-  tgt : Bool := true
+  tgt : Bool := true                       -- `target` container given
+  tgtE : Bool := true                      -- `targetErr` container given
   ctx : Option Nat := none
   ctxCalls : List Nat := []
   dead : List Nat := []
@@ -238,7 +239,7 @@ def monProgress : ObsMonitor Obs ProgSt where
   init := {}
   step := fun m o =>
     match o with
-    | .cfg _ ctx tgt => some { m with ctx := some ctx, tgt := tgt }
+    | .cfg _ ctx tgt => some { m with ctx := some ctx, tgt := cfgTgt tgt, tgtE := cfgTgtE tgt }
     | .invAddRef a k => some { m with kinds := (a, k == .rcd) :: m.kinds }
     | .retAddRef a =>
       some { m with added := (a, (m.kinds.find? (·.1 == a)).map (·.2) == some true) :: m.added }
@@ -259,7 +260,8 @@ def monProgress : ObsMonitor Obs ProgSt where
       if progActive m then
         match m.latest with
         | some (v, e) =>
-          if !m.tgt || (pv, pe) == (if e = 0 then (v, 0) else (0, e)) then some m else none
+          -- each container that was given is checked on its own (either may be nil)
+          if (!m.tgt || pv == (if e = 0 then v else 0)) && (!m.tgtE || pe == e) then some m else none
         | none => none
       else some m
     | .quiesce _ =>
